@@ -353,6 +353,13 @@ func evalBatch(progs []Prog) (res []progResult, infra error) {
 			continue
 		}
 		if msg, bad := failed[name]; bad {
+			if !goDiagInMain.MatchString(msg) {
+				// the toolchain failed without a diagnostic inside the generated file (linker I/O error, full disk,
+				// killed compiler): the environment, not the backend
+				res[i].Skip = "gobuild_env"
+				res[i].Msg = clip(msg, 600)
+				continue
+			}
 			res[i].Fail = "gobuild"
 			res[i].Msg = "generated Go source does not compile:\n" + clip(msg, 2500)
 			continue
@@ -368,6 +375,9 @@ func evalBatch(progs []Prog) (res []progResult, infra error) {
 	wg.Wait()
 	return res, nil
 }
+
+// a compiler diagnostic located in a generated file
+var goDiagInMain = regexp.MustCompile(`(?m)^(\./)?p\d{3}/main\.go:\d+(:\d+)?: `)
 
 func compare(r *progResult, vm sb.Run, nat binRun) {
 	if nat.timedOut {
@@ -467,6 +477,10 @@ func oracle(c Case, ctx *pbt.Ctx) error {
 		switch {
 		case r.Skip != "":
 			ctx.Label("skip:" + r.Skip)
+			if r.Skip == "gobuild_env" {
+				pbt.Inconclusive()
+				fmt.Fprintf(os.Stderr, "c09: inconclusive program (toolchain failure without a diagnostic in the generated file): %s\n", r.Msg)
+			}
 			if r.Skip == "vm_rejected" && p.Kind != "corpus" {
 				if os.Getenv("C09_DEBUG") != "" {
 					fmt.Fprintf(os.Stderr, "REJ[%s]: %s\n", p.Kind, r.Msg)
